@@ -1,2 +1,111 @@
--- driver stub for C17: replaced by the real line-protocol driver
-def main : IO Unit := pure ()
+import Bermuda.Model.Json
+import Bermuda.Model.Resample
+import Bermuda.Spec.C17
+open Lean Bermuda Bermuda.Resample
+
+def ratsFromJson (j : Json) : Except String (List Rat) := do
+  (← j.getArr?).toList.mapM ratFromJson
+
+def ratsToJson (l : List Rat) : Json := Json.arr (l.map ratToJson).toArray
+
+def pairsFromJson {α} (f : Json → Except String α) (j : Json) : Except String (List (String × α)) := do
+  (← j.getArr?).toList.mapM fun e => do
+    let a ← e.getArr?
+    if a.size != 2 then throw "want pairs"
+    return (← a[0]!.getStr?, ← f a[1]!)
+
+def factorsFromJson (j : Json) : Except String Factors := do
+  (← j.getArr?).toList.mapM fun e => do
+    let a ← e.getArr?
+    if a.size != 2 then throw "factors: want [lag, table]"
+    return (← ratFromJson a[0]!, ← pairsFromJson ratsFromJson a[1]!)
+
+def repParamFromJson (j : Json) : Except String RepParam := do
+  let F ← match j.getObjVal? "F" with
+    | .ok v => factorsFromJson v
+    | .error _ => pure []
+  let qs ← match j.getObjVal? "qs" with
+    | .ok v => pairsFromJson ratsFromJson v
+    | .error _ => pure []
+  return { F := F, qs := fun f => (assoc? qs f).getD [] }
+
+def optFields (j : Json) : Except String (Option (List String)) := do
+  match j.getObjVal? "field" with
+  | .ok v => if v.isNull then return none else return some (← (← v.getArr?).toList.mapM (·.getStr?))
+  | .error _ => return none
+
+def bools (l : List (String × Bool)) : Json := Json.mkObj (l.map fun (k, b) => (k, Json.bool b))
+
+def handle (j : Json) : Except String Json := do
+  let op ← (← j.getObjVal? "op").getStr?
+  match op with
+  | "reimpose" =>
+    let xs ← ratsFromJson (← j.getObjVal? "xs")
+    let qs ← ratsFromJson (← j.getObjVal? "qs")
+    let model := reimposeRank xs qs
+    let spec ← match j.getObjVal? "impl" with
+      | .ok v => if v.isNull then pure Json.null else do
+          let r ← ratsFromJson v
+          pure <| bools [("order", Spec.C17.rankOrderOk xs r), ("fixed", Spec.C17.rankFixed xs r),
+                         ("perm", Spec.C17.sameMultiset qs r)]
+      | .error _ => pure Json.null
+    return Json.mkObj [("model", ratsToJson model), ("spec", spec)]
+  | "bootstrap" =>
+    let t ← cellsFromJson (← j.getObjVal? "t")
+    let n ← jInt? (← j.getObjVal? "n")
+    let field ← optFields j
+    let P ← (← (← j.getObjVal? "P").getArr?).toList.mapM fun s => do
+      (← s.getArr?).toList.mapM repParamFromJson
+    let Pf : Nat → Nat → RepParam := fun k i => (P.getD k []).getD i {}
+    let model := bootstrap t n field Pf
+    let spec ← match j.getObjVal? "impl" with
+      | .ok v => if v.isNull then pure Json.null else do
+          let reps ← (← v.getArr?).toList.mapM cellsFromJson
+          pure <| bools [
+            ("structure", Spec.C17.bootstrapStructureOk t n.toNat reps),
+            ("first", reps.zipIdx.all fun (rep, i) => Spec.C17.firstCellsUnchanged t rep i),
+            ("membership", reps.zipIdx.all fun (rep, i) => Spec.C17.ataMembershipOk t rep i field)]
+      | .error _ => pure Json.null
+    return Json.mkObj [("model", exceptToJson (fun l => Json.arr (l.map cellsToJson).toArray) model),
+                       ("spec", spec)]
+  | "thin" =>
+    let t ← cellsFromJson (← j.getObjVal? "t")
+    let k ← (← j.getObjVal? "k").getNat?
+    let idx ← (← (← j.getObjVal? "idx").getArr?).toList.mapM (·.getNat?)
+    let model := thin t k idx
+    let mj := exceptToJson (fun r => match r with
+      | ThinResult.same => Json.str "same"
+      | ThinResult.fresh c => cellsToJson c) model
+    let n := match numSamples t with | .ok n => n | .error _ => 0
+    let spec ← match j.getObjVal? "impl" with
+      | .ok v =>
+        if v.isNull then pure Json.null
+        else match v with
+          | .str _ => pure Json.null
+          | _ => do
+            let out ← cellsFromJson v
+            pure <| bools [("thin", Spec.C17.thinOk t out k n)]
+      | .error _ => pure Json.null
+    return Json.mkObj [("model", mj), ("spec", spec)]
+  | "moment" =>
+    let t ← cellsFromJson (← j.getObjVal? "t")
+    let fields ← (← (← j.getObjVal? "fields").getArr?).toList.mapM (·.getStr?)
+    let distOk ← (← j.getObjVal? "distOk").getBool?
+    let draws ← (← (← j.getObjVal? "draws").getArr?).toList.mapM fun e => do
+      let a ← e.getArr?
+      if a.size != 3 then throw "draw: want [i, field, values]"
+      return (← a[0]!.getNat?, ← a[1]!.getStr?, ← ratsFromJson a[2]!)
+    let df : Nat → String → List Rat := fun i f =>
+      match draws.find? (fun d => d.1 == i && d.2.1 == f) with
+      | some d => d.2.2
+      | none => []
+    let model := momentMatch t fields distOk df
+    let spec ← match j.getObjVal? "impl" with
+      | .ok v => if v.isNull then pure Json.null else do
+          let out ← cellsFromJson v
+          pure <| bools [("moment", Spec.C17.momentOk t out fields)]
+      | .error _ => pure Json.null
+    return Json.mkObj [("model", exceptToJson cellsToJson model), ("spec", spec)]
+  | o => throw s!"unknown op {o}"
+
+def main : IO Unit := serve handle
